@@ -98,6 +98,8 @@ def constructs(mdl: Model, t: str) -> List[str]:
                         tags.update(constructs(mdl, seg.elem[1]))
                     if seg.elem[0] == 'custom':
                         tags.add('custom_array')
+                    if seg.elem[0] == 'scalar' and seg.elem_static not in (1, 2, 4, 8):
+                        tags.add('array_nonnative_scalar')
     return sorted(tags)
 
 
@@ -114,6 +116,7 @@ def norm_check(desc: str) -> str:
         d = 'panic'
     d = re.sub(r'unwinding assertion loop \d+', 'unwinding assertion', d)
     fn = re.sub(r'\{closure#\d+\}', 'closure', fn)
+    fn = re.sub(r'^(h::)?c\d\d[a-z]?_\w+$', 'harness', fn)
     # the generated type name is not part of the role
     fn = re.sub(r'^(\w+)::(decode|encode|encoded_len|decode_partial|encode_partial|specialize)$', r'\2', fn)
     return f'{d} @ {fn}' if fn else d
